@@ -264,6 +264,120 @@ theorem order_independent_mem (total : Int) (ns₁ ns₂ : List Node) (h : ns₁
     (q : Node × Int) : q ∈ (redistributeN total ns₁).1 ↔ q ∈ (redistributeN total ns₂).1 :=
   (order_independent total ns₁ ns₂ h hnd).1.mem_iff
 
+/-! ### 5d. the bounds lift to multi-level trees (top-down refresh along a path) -/
+
+theorem levelRuntime_mem (total : Int) (ns : List Node) (name : Nat) (rt : Int)
+    (h : levelRuntime total ns name = some rt) :
+    ∃ q ∈ (redistributeN total ns).1, q.1.name = name ∧ q.2 = rt := by
+  unfold levelRuntime lookupRt redistribute at h
+  cases hf : List.find? (fun p => p.1 == name) ((redistributeN total ns).1.map (fun p => (p.1.name, p.2))) with
+  | none => rw [hf] at h; cases h
+  | some p =>
+    rw [hf] at h
+    simp only [Option.map_some, Option.some.injEq] at h
+    have hm := List.mem_of_find?_eq_some hf
+    have hp := List.find?_some hf
+    obtain ⟨q, hq, rfl⟩ := List.mem_map.mp hm
+    exact ⟨q, hq, by simpa using hp, h⟩
+
+/-- at every level the path's node gets a runtime between the smaller and the larger of its request
+    and its (effective) minimum. -/
+theorem level_runtime_bounds (total : Int) (ns : List Node) (name : Nat) (rt : Int)
+    (h : levelRuntime total ns name = some rt) :
+    ∃ n ∈ ns, n.name = name ∧ min n.request (effMin n) ≤ rt ∧ rt ≤ max n.request (effMin n) := by
+  obtain ⟨q, hq, hn, hrt⟩ := levelRuntime_mem total ns name rt h
+  have hb := runtime_bounds total ns q hq
+  have hmem : q.1 ∈ ns := (nodes_preserved total ns).mem_iff.mp (List.mem_map.mpr ⟨q, hq, rfl⟩)
+  exact ⟨q.1, hmem, hn, by rw [← hrt]; exact hb.1, by rw [← hrt]; exact hb.2⟩
+
+def NonNegNodes (ns : List Node) : Prop := ∀ n ∈ ns, 0 ≤ n.request ∧ 0 ≤ n.min ∧ 0 ≤ n.guarantee
+
+theorem runtimeSum_ge_mem (ps : List (Node × Int)) (hnn : ∀ p ∈ ps, 0 ≤ p.2) (q : Node × Int) (hq : q ∈ ps) :
+    q.2 ≤ runtimeSum ps := by
+  induction ps with
+  | nil => cases hq
+  | cons p ps ih =>
+    have hp := hnn p (by simp)
+    have hrest : 0 ≤ runtimeSum ps := by
+      clear ih hq
+      induction ps with
+      | nil => simp [runtimeSum]
+      | cons r rs ih2 =>
+        have := hnn r (by simp)
+        have := ih2 (fun x hx => hnn x (by
+          rcases List.mem_cons.mp hx with rfl | hx'
+          · simp
+          · simp [hx']))
+        simp only [runtimeSum, List.map_cons, List.sum_cons] at *; omega
+    simp only [runtimeSum, List.map_cons, List.sum_cons] at *
+    rcases List.mem_cons.mp hq with rfl | hq'
+    · omega
+    · have := ih (fun x hx => hnn x (by simp [hx])) hq'; omega
+
+/-- when the siblings' minimums fit, no child gets more than its parent has. -/
+theorem level_runtime_le_total (total : Int) (ns : List Node) (name : Nat) (rt : Int)
+    (hw : WeightsOK ns) (hnn : NonNegNodes ns) (hfit : effMinSum ns ≤ total)
+    (h : levelRuntime total ns name = some rt) : 0 ≤ rt ∧ rt ≤ total := by
+  obtain ⟨q, hq, _, hrt⟩ := levelRuntime_mem total ns name rt h
+  have hall : ∀ p ∈ (redistributeN total ns).1, 0 ≤ p.2 := by
+    intro p hp
+    have hb := runtime_bounds total ns p hp
+    have hmem : p.1 ∈ ns := (nodes_preserved total ns).mem_iff.mp (List.mem_map.mpr ⟨p, hp, rfl⟩)
+    have := hnn p.1 hmem
+    have : 0 ≤ effMin p.1 := by unfold effMin; split <;> omega
+    omega
+  have h1 := runtimeSum_ge_mem _ hall q hq
+  have h2 := sum_le_total total ns hw hfit
+  rw [← hrt]
+  exact ⟨hall q hq, by omega⟩
+
+/-- the minimums fit at every level of the path, each level measured against the runtime handed down. -/
+def PathFits : Int → List (List Node × Nat) → Prop
+  | _, [] => True
+  | total, (ns, name) :: rest =>
+    WeightsOK ns ∧ NonNegNodes ns ∧ effMinSum ns ≤ total ∧
+    ∀ rt, levelRuntime total ns name = some rt → PathFits rt rest
+
+/-- along any path of a multi-level tree the runtime only shrinks: a descendant never gets more than
+    any of its ancestors, nor more than the cluster total. -/
+theorem refresh_path_le_total (total : Int) (levels : List (List Node × Nat)) (r : Int)
+    (h0 : 0 ≤ total) (hf : PathFits total levels) (h : refreshPath total levels = some r) :
+    0 ≤ r ∧ r ≤ total := by
+  induction levels generalizing total with
+  | nil => simp [refreshPath] at h; omega
+  | cons lv rest ih =>
+    obtain ⟨ns, name⟩ := lv
+    unfold refreshPath at h
+    obtain ⟨hw, hnn, hfit, hrest⟩ := hf
+    cases hl : levelRuntime total ns name with
+    | none => rw [hl] at h; cases h
+    | some rt =>
+      rw [hl] at h
+      have hb := level_runtime_le_total total ns name rt hw hnn hfit hl
+      have := ih rt hb.1 (hrest rt hl) h
+      omega
+
+/-- and the leaf of the path is bounded by its own request / minimum. -/
+theorem refresh_path_bounds (total : Int) (pre : List (List Node × Nat)) (ns : List Node) (name : Nat) (r : Int)
+    (h : refreshPath total (pre ++ [(ns, name)]) = some r) :
+    ∃ n ∈ ns, n.name = name ∧ min n.request (effMin n) ≤ r ∧ r ≤ max n.request (effMin n) := by
+  induction pre generalizing total with
+  | nil =>
+    simp only [List.nil_append, refreshPath] at h
+    cases hl : levelRuntime total ns name with
+    | none => rw [hl] at h; cases h
+    | some rt =>
+      rw [hl] at h
+      simp only [refreshPath, Option.some.injEq] at h
+      subst h
+      exact level_runtime_bounds total ns name rt hl
+  | cons lv rest ih =>
+    obtain ⟨ms, nm⟩ := lv
+    simp only [List.cons_append, refreshPath] at h
+    cases hl : levelRuntime total ms nm with
+    | none => rw [hl] at h; cases h
+    | some rt => rw [hl] at h; exact ih rt h
+
 /-! ### 5c. minimums are scaled down only when they do not fit, and then they fit again -/
 
 inductive SMOp where
